@@ -47,7 +47,7 @@ LEVEL = {
 }
 # engine -> tier -> (runs, wall budget seconds for the batch)
 BUDGET = {
-    "faultsim": {"quick": (160, 420), "thorough": (1600, 3000)},
+    "faultsim": {"quick": (160, 420), "thorough": (800, 3000)},
     "evalsim": {"quick": (160, 420), "thorough": (2400, 3000)},
     "prangesim": {"quick": (800, 300), "thorough": (20000, 2400)},
     "paramsim": {"quick": (3000, 300), "thorough": (60000, 2400)},
